@@ -282,9 +282,9 @@ theorem geom_receiver_same_arm (old : GRecv) (d : DG) (h1 : d.isColl = false →
 theorem geom_receiver_clean (c : Codec) (old : GRecv) (j : Json) (hc : old.coords = none)
     (hg : old.geoms = none) : geomInto c old j = geomInto c {} j := geom_receiver_clean' c old j hc hg
 
-/-- the full statement (`geom_receiver_history_full`, OrbProofs/C02Recv.lean) is FALSE: known finding
-    C02-geometry-receiver-reuse -/
-theorem geom_receiver_history_full_false : ¬ geom_receiver_history_full := geom_receiver_history_full_false'
+/-- the full statement (`geom_receiver_history_full`, OrbProofs/C02Recv.lean) holds since fix C02-3
+    (before: known finding C02-geometry-receiver-reuse) -/
+theorem geom_receiver_history : geom_receiver_history_full := geom_receiver_history_full_true'
 
 /-- `Feature`, `FeatureCollection`, the six typed helpers: every success path assigns the whole value -/
 theorem feature_receiver_history (c : Codec) (rawNull : Bool) (old old' : Feature) (j : Json)
